@@ -950,15 +950,19 @@ def scale_views(font, data, glyph_names=None):
     if "head" in font:
         # CFF: head's box is recomputed on save from the charstrings as intRect(real extremum of the curves): kind "E"
         # (floor/ceil of a real number that is itself within maxn/2 of the scaled one; see build_scale_trace)
-        V["head"] = _attr_leaves(font["head"], (), derived=HEAD_D, derived_h=(maxn + 2 if is_cff else bb),
+        V["head"] = _attr_leaves(font["head"], (), derived=HEAD_D, derived_h=(maxn if is_cff else bb),
                                  skip=("checkSumAdjustment", "modified", "unitsPerEm", "indexToLocFormat", "flags"),
-                                 derived_kind="E" if is_cff else "D")
+                                 derived_kind="E" if (is_cff or transformed) else "D")
         # bit 1 of head.flags is DERIVED on save ("every glyph's lsb equals its xMin", maxp.recalc): two numbers
         # one unit apart may round to the same value, so the bit is not part of NothingElse
         V["head"].append((("flags&~2",), "I", font["head"].flags & ~0x2, 0))
     for tag in ("hhea", "vhea"):
         if tag in font:
-            V[tag] = _attr_leaves(font[tag], HHEA_D, derived=HHEA_DERIVED, derived_h=2 + 2 * bb, skip=("numberOfHMetrics", "numberOfVMetrics"))
+            # extents / side-bearing extremes are recomputed on save from glyph boxes; where a box is a ROUNDED real number
+            # already before scaling (charstring curve extrema through intRect; composites with a 2x2 transform), that
+            # rounding error is multiplied by the factor: kind "E"
+            V[tag] = _attr_leaves(font[tag], HHEA_D, derived=HHEA_DERIVED, derived_h=2 + 2 * bb, skip=("numberOfHMetrics", "numberOfVMetrics"),
+                                  derived_kind="E" if (is_cff or transformed) else "D")
     if "OS/2" in font:
         V["OS/2"] = _attr_leaves(font["OS/2"], OS2_D)
     if "post" in font:
